@@ -19,6 +19,19 @@ from zmon import util
 from zmon.util import nm
 
 
+class DependentFault(Exception):
+    pass
+
+
+class RaisingDependent:
+    fired = False
+
+    def changed(self, originally_changed):
+        if not self.fired:
+            self.fired = True
+            raise DependentFault('dependent failed')
+
+
 class World:
     def __init__(self, ctx, rng, tier):
         self.ctx, self.rng = ctx, rng
@@ -342,6 +355,21 @@ class World:
             if ifs and rng.random() < 0.15:
                 classImplements(c, (x for x in ifs))
                 ctx.count('declarations_from_one_shot_iterables')
+            elif rng.random() < 0.12:
+                # the declaration call fails half-way: something subscribed to the class's specification raises when it
+                # is told.  The declaration itself has been recorded by then; an empty re-declaration (nothing new,
+                # everything recomputed and everybody told again) must leave exactly what the history declared.
+                dep = RaisingDependent()
+                implementedBy(c).subscribe(dep)
+                try:
+                    classImplements(c, *ifs)
+                    raised = False
+                except DependentFault:
+                    raised = True
+                implementedBy(c).unsubscribe(dep)
+                if raised:
+                    ctx.count('declarations_interrupted_by_a_raising_dependent')
+                classImplements(c)
             else:
                 classImplements(c, *ifs)
         elif op == 'deco':
